@@ -29,6 +29,35 @@ def rand_tuple(rng, idx):
     return t
 
 
+def make_systematic(ctx):
+    """thorough tier: every 16-bit characteristics word and every 16-bit rate, every RSSI value, walking-bit 32-bit words"""
+    scns = []
+    words32 = sorted(set([0, 1, 0xFFFFFFFF, 0x80000000, 0x7FFFFFFF, 0x01020304, 0xFFFEFDFC] + [1 << b for b in range(32)] +
+                         [(1 << b) - 1 for b in range(1, 33)] + [0xFFFFFFFF ^ (1 << b) for b in range(32)]))
+    for chunk in range(0, 65536, 1024):
+        rng = G.rng_for(ctx.seed, "C04sys", chunk)
+        base = G.rand_cfg(rng, mtu=1500, wifi=True)
+        mapper = G.rand_mac(rng)
+        s = H.Scenario("sys%d" % chunk)
+        s.iface(0, **H.iface_kw(base)).glob(**G.global_kw(G.rand_global(rng, icon_size=0)))
+        s.add("OPT sleep=0")
+        tuples = []
+        for v in range(chunk, chunk + 1024):
+            t = dict(base)
+            t.update(flags=v, rate=(v * 40503) & 0xFFFF, rssi=(v % 256) - 128, iftype=words32[v % len(words32)],
+                     speed=words32[(v // 7) % len(words32)], hostname=base.get("hostname", b"sys"), gfail=0, gconv=v & 1, fail=0)
+            t["hostname"] = b"h%d" % v
+            kw = H.iface_kw(t)
+            kw.pop("mtu"), kw.pop("rxseed")
+            s.add("SET 0 " + H.kvs(kw))
+            s.add("GSET hostname=%s fail=0 conv=%d" % (t["hostname"].hex(), t["gconv"]))
+            s.frame(0, W.discover(mapper, v, v ^ 0x5555, [], tos=v & 1))
+            tuples.append(t)
+        s.meta = dict(tuples=tuples)
+        scns.append(s)
+    return scns
+
+
 def make_scenarios(ctx, count, per):
     scns = []
     idx = 0
@@ -137,6 +166,8 @@ def run(ctx):
                        "Linux speed conversion: rounding accepted in either direction (|LinkSpeed - 100*speed| < 100)"]
     binary = H.build(ctx.work, "asan")
     scns = make_scenarios(ctx, ctx.n(400, 12500), ctx.n(50, 80))
+    if not ctx.quick:
+        scns += make_systematic(ctx)
     run_monitored(ctx, binary, scns, monitor, tag="attr")
     c = rep.counters
     rep.need("wireless_tuples", c.get("wireless_tuples", 0), 2000)
